@@ -91,6 +91,10 @@ def monitor(res, store, kind, t, ident, got, script, exact_case=True):
                     res.violation('C17', 'wrong-record', '%s store: identity %r field %s is %r, configured %r' % (kind, ident, k, got.get(k), want[k]), script)
     elif exact_case and got:
         res.violation('C17', 'unknown-found', '%s store: unconfigured identity %r returns %r' % (kind, ident, got), script)
+        if got.get('pubchans'):
+            # what that means one layer up (C03): a client that knows the OTHER identity's secret is authenticated under
+            # the name `ident`, which has no publish list at all, and its messages are delivered carrying that name
+            res.violation('C03', 'store-lends-identity', '%s store answers the unconfigured identity %r with the record of another identity (publish list %r): a broker on this store delivers messages naming %r, an ident nobody was given' % (kind, ident, got.get('pubchans'), ident), script)
 
 
 def table_case(res, drv, tmp, k, t, t2, idents, idents2, empty_reload):
